@@ -299,10 +299,11 @@ func (e *Engine) findIndicesDFA(haystack []byte) (int, int, bool) { //nolint:cyc
 					return candidate, endPos, true
 				}
 			} else {
-				start, end, found := state.pikevm.SearchAt(haystack, candidate)
-				if found && start == candidate {
-					return start, end, true
-				}
+				// Unanchored search from the candidate: its answer is final. Every
+				// earlier candidate failed, so a match it finds is the leftmost one,
+				// and if it finds none there is no match at or after the candidate
+				// (trying the next candidate would only repeat the scan).
+				return state.pikevm.SearchAt(haystack, candidate)
 			}
 			pos = candidate + 1
 		}
